@@ -615,6 +615,101 @@ fn run(v: &Value) -> Result<String, String> {
             }
             Ok(format!("first={first_s} second={second_s} received={} bytes, {frames} whole frames, torn_tail={torn}", bytes.len()))
         }
+        "peer_registry_sweep" => {
+            // Bounded stand-in for C18: every operation sequence of length <= `len` over 3 peers and 3 keys
+            // (insert / remove / alias), checked after each step against a sequential model: get_by(k) resolves
+            // exactly when k was last assigned to a peer that is still present; aliases_for(p) holds exactly the
+            // keys currently pointing at p in assignment order; removing a peer removes all and only its keys.
+            // Then a broadcast (with a sink that removes another peer mid-broadcast) must deliver exactly one
+            // notification to, and report one result for, each peer present at the moment of the call.
+            use std::sync::{Arc, Mutex};
+            let len = v.get("len").and_then(|x| x.as_u64()).unwrap_or(4) as usize;
+            struct Sink { hits: Arc<Mutex<Vec<(u64, String)>>>, id: u64, reg: Arc<Mutex<Option<repe::PeerRegistry>>>, kill: u64 }
+            impl repe::PeerSink for Sink {
+                fn send_notify(&self, method: &str, _body: repe::NotifyBody) -> Result<(), repe::PeerSendError> {
+                    self.hits.lock().unwrap().push((self.id, method.to_string()));
+                    let reg = self.reg.lock().unwrap().clone();
+                    if let Some(r) = reg { r.remove(repe::PeerId(self.kill)); }
+                    Ok(())
+                }
+            }
+            let keys = ["ka", "kb", "kc"];
+            // ops: 0..3 insert p, 3..6 remove p, 6..15 alias(p,k)
+            let nops = 15usize;
+            let mut seq = vec![0usize; len];
+            let mut count = 0u64;
+            loop {
+                for l in 1..=len {
+                    // run the prefix of length l only when it is a full sequence (avoid re-checking prefixes): run full length
+                    if l != len { continue; }
+                    let reg = repe::PeerRegistry::new();
+                    let hits = Arc::new(Mutex::new(Vec::new()));
+                    let cell: Arc<Mutex<Option<repe::PeerRegistry>>> = Arc::new(Mutex::new(None));
+                    // model
+                    let mut present = [false; 3];
+                    let mut owner: [Option<usize>; 3] = [None; 3];
+                    let mut lists: [Vec<usize>; 3] = [vec![], vec![], vec![]];
+                    for (step, &op) in seq.iter().enumerate() {
+                        if op < 3 {
+                            let p = op;
+                            if !present[p] {
+                                reg.insert(repe::PeerHandle::new(repe::PeerId(p as u64 + 1), Arc::new(Sink { hits: hits.clone(), id: p as u64 + 1, reg: cell.clone(), kill: ((p + 1) % 3) as u64 + 1 })));
+                                present[p] = true;
+                            }
+                        } else if op < 6 {
+                            let p = op - 3;
+                            reg.remove(repe::PeerId(p as u64 + 1));
+                            present[p] = false;
+                            for k in 0..3 { if owner[k] == Some(p) { owner[k] = None; } }
+                            lists[p].clear();
+                        } else {
+                            let p = (op - 6) / 3;
+                            let k = (op - 6) % 3;
+                            let ok = reg.alias(repe::PeerId(p as u64 + 1), keys[k]);
+                            if ok != present[p] { return Err(format!("history {seq:?} step {step}: alias returned {ok}, peer present = {}", present[p])); }
+                            if present[p] && owner[k] != Some(p) {
+                                if let Some(prev) = owner[k] { lists[prev].retain(|x| *x != k); }
+                                owner[k] = Some(p);
+                                lists[p].push(k);
+                            }
+                        }
+                        for k in 0..3 {
+                            let got = reg.get_by(keys[k]).map(|h| h.peer_id().0);
+                            let want = owner[k].filter(|p| present[*p]).map(|p| p as u64 + 1);
+                            if got != want { return Err(format!("history {seq:?} step {step}: get_by({}) = {got:?}, model says {want:?}", keys[k])); }
+                        }
+                        for p in 0..3 {
+                            let got = reg.aliases_for(repe::PeerId(p as u64 + 1));
+                            let want: Vec<String> = lists[p].iter().map(|k| keys[*k].to_string()).collect();
+                            if got != want { return Err(format!("history {seq:?} step {step}: aliases_for({}) = {got:?}, model says {want:?}", p + 1)); }
+                        }
+                        if reg.len() != present.iter().filter(|x| **x).count() { return Err(format!("history {seq:?} step {step}: len mismatch")); }
+                    }
+                    // broadcast with a peer removed mid-way by a sink
+                    *cell.lock().unwrap() = Some(reg.clone());
+                    hits.lock().unwrap().clear();
+                    let res = reg.broadcast_notify_utf8("/evt", "x");
+                    let want: std::collections::BTreeSet<u64> = (0..3).filter(|p| present[*p]).map(|p| p as u64 + 1).collect();
+                    let got: std::collections::BTreeSet<u64> = res.keys().map(|p| p.0).collect();
+                    if got != want { return Err(format!("history {seq:?}: broadcast reported results for {got:?}, peers present at the call were {want:?}")); }
+                    let mut delivered: Vec<u64> = hits.lock().unwrap().iter().map(|(p, _)| *p).collect();
+                    delivered.sort();
+                    if delivered != want.iter().cloned().collect::<Vec<_>>() { return Err(format!("history {seq:?}: broadcast delivered to {delivered:?}, peers present at the call were {want:?}")); }
+                    if hits.lock().unwrap().iter().any(|(_, m)| m != "/evt") { return Err(format!("history {seq:?}: a notification carried the wrong path")); }
+                    *cell.lock().unwrap() = None;
+                    count += 1;
+                }
+                // next sequence
+                let mut i = 0;
+                loop {
+                    if i == len { return Ok(format!("{count} histories of length {len} over 3 peers x 3 keys held")); }
+                    seq[i] += 1;
+                    if seq[i] < nops { break; }
+                    seq[i] = 0;
+                    i += 1;
+                }
+            }
+        }
         other => panic!("unknown replay entry `{other}`"),
     }
 }
